@@ -22,6 +22,12 @@ from . import arrays as A
 from .core import Sym, SymComplex, Unsupported, cur, exact, Q
 
 
+import z3 as _z3
+
+SQRT3 = Sym(_z3.Real("sqrt3"))
+SQRT3_FACTS = [_z3.Real("sqrt3") > 0, _z3.Real("sqrt3") * _z3.Real("sqrt3") == 3]
+
+
 def _i_pow(k):  # i**k
     return [(1, 0), (0, 1), (-1, 0), (0, -1)][k % 4]
 
@@ -34,6 +40,14 @@ def _twiddle(n, jk, sign):
         return (1, 0) if jk % 2 == 0 else (-1, 0)
     if n == 4:
         return _i_pow(sign * jk)
+    if n in (3, 6):
+        # multiples of 60 degrees: cos in {1, 1/2, -1/2, -1}, sin in {0, +-sqrt3/2}; sqrt3 is the symbolic constant SQRT3 (SQRT3_FACTS must be assumed)
+        from fractions import Fraction
+
+        m = (sign * jk * (6 // n)) % 6
+        c = [Fraction(1), Fraction(1, 2), Fraction(-1, 2), Fraction(-1), Fraction(-1, 2), Fraction(1, 2)][m]
+        sg = [0, 1, 1, 0, -1, -1][m]
+        return (c, SQRT3 * Fraction(sg, 2)) if sg else (c, 0)
     raise Unsupported(f"exact DFT of length {n}")
 
 
